@@ -19,6 +19,7 @@ structure St where
   w : World
   out : List String := []
   autoNext : Nat := 0         -- next auto-increment value of the key column (0: the table has none)
+  autoStep : Nat := 1         -- auto_increment_increment of the server the table lives on
   lenient : Bool := false     -- the local transaction being collected carries on after failed statements
 
 /-- the auto-increment marker the parser leaves for `A.` -/
@@ -26,14 +27,20 @@ def autoMark : Val := .str [255, 65, 85, 84, 79]
 
 /-- glue, not model: replace the auto-increment markers of INSERT rows by the values the database will
     assign (the counter never goes back and jumps past explicitly inserted larger values) -/
-def substAuto (next : Nat) : LocalTx → LocalTx × Nat
+def alignAuto (step n : Nat) : Nat :=
+  if step ≤ 1 then n else if n % step == 1 % step then n else n + ((step + 1 % step - n % step) % step)
+
+def substAuto (step : Nat) (next : Nat) : LocalTx → LocalTx × Nat
   | [] => ([], next)
   | (s, a) :: rest =>
     let fixRows (rows : List (List Expr)) (n : Nat) : List (List Expr) × Nat :=
       rows.foldl (fun (acc : List (List Expr) × Nat) row =>
         match row with
         | .lit v :: tl =>
-          if v == autoMark then (acc.1 ++ [Expr.lit (.int acc.2) :: tl], acc.2 + 1)
+          if v == autoMark then
+            -- the server hands out values congruent to 1 modulo its auto_increment_increment
+            let g := alignAuto step acc.2
+            (acc.1 ++ [Expr.lit (.int g) :: tl], g + 1)
           else match v with
             | .int i => (acc.1 ++ [row], if i.toNat + 1 > acc.2 then i.toNat + 1 else acc.2)
             | _ => (acc.1 ++ [row], acc.2)
@@ -45,20 +52,20 @@ def substAuto (next : Nat) : LocalTx → LocalTx × Nat
     match s with
     | .insert rows =>
       let r := fixRows rows next
-      let r2 := substAuto r.2 rest
+      let r2 := substAuto step r.2 rest
       ((.insert r.1, a) :: r2.1, r2.2)
     | .upsert rows asg =>
       -- explicit keys of an upsert move the counter too
       let r := fixRows rows next
-      let r2 := substAuto r.2 rest
+      let r2 := substAuto step r.2 rest
       ((.upsert r.1 asg, a) :: r2.1, r2.2)
     | _ =>
-      let r2 := substAuto next rest
+      let r2 := substAuto step next rest
       ((s, a) :: r2.1, r2.2)
 
 /-- run one local transaction (tokens already parsed) -/
 def runLocal (st0 : St) (ltx0 : LocalTx) : St :=
-  let sub := if st0.autoNext == 0 then (ltx0, 0) else substAuto st0.autoNext ltx0
+  let sub := if st0.autoNext == 0 then (ltx0, 0) else substAuto st0.autoStep st0.autoNext ltx0
   let ltx := sub.1
   let st := { st0 with autoNext := sub.2 }
   match runLocalTx st.sc st.cfg st.w ltx with
@@ -73,7 +80,7 @@ def runLocal (st0 : St) (ltx0 : LocalTx) : St :=
         { st with w := w', out := st.out ++ [s!"L:ok:k={showKeys bs.b.lockKeys}:img={img}"] }
 
 def runLocalLenient (st0 : St) (ltx0 : LocalTx) : St :=
-  let sub := if st0.autoNext == 0 then (ltx0, 0) else substAuto st0.autoNext ltx0
+  let sub := if st0.autoNext == 0 then (ltx0, 0) else substAuto st0.autoStep st0.autoNext ltx0
   let ltx := sub.1
   let st := { st0 with autoNext := sub.2 }
   let w' := runLocalTxLenient st.sc st.cfg st.w ltx
@@ -159,7 +166,8 @@ def handle (ws : List String) : String :=
   | "at" :: cfgS :: scS :: rest =>
     let cfgC := cfgS.toList
     let cfg : Cfg := { validate := cfgC.getD 1 '0' == '1', onlyCare := cfgC.getD 3 '0' == '1' }
-    let auto := cfgC.getD 5 '0' == '1'     -- the first key column is AUTO_INCREMENT
+    let autoC := cfgC.getD 5 '0'            -- '1' / '2': the first key column is AUTO_INCREMENT, the digit is the server's step
+    let auto := autoC == '1' || autoC == '2'
     match parseSchema scS with
     | none => "bad-schema"
     | some sc =>
@@ -169,7 +177,7 @@ def handle (ws : List String) : String :=
       | none => "bad-rows"
       | some rows =>
         let maxId := rows.foldl (fun m r => match r.head? with | some (.int i) => max m i.toNat | _ => m) 0
-        let st := runScript { sc := sc, cfg := cfg, w := { t := rows }, autoNext := if auto then maxId + 1 else 0 } script none
+        let st := runScript { sc := sc, cfg := cfg, w := { t := rows }, autoNext := if auto then maxId + 1 else 0, autoStep := if autoC == '2' then 2 else 1 } script none
         joinSp st.out
   | _ => "bad-op"
 
